@@ -253,7 +253,18 @@ def wl_est_sweep(ctx, rng, case):
     forced = case.index % 2 == 1
     effective = calls = i = 0
     target = 2 * est + 2
-    while effective < target and i < 3 * target + 50:
+    # a third of the cases place ONE explicit push when the newest filter is nearly or exactly full (0, 1 or 2 insertions short); the
+    # FIFO model then replaces the closed form: a push appends an empty filter, an effective add grows first when the newest one is full
+    push_short = (case.index // 3) % 3 if case.index % 3 == 2 and est >= 2 else None
+    model = [0]
+    pushed = False
+    while effective < target + (est if push_short is not None else 0) and i < 4 * target + 50:
+        if push_short is not None and not pushed and len(model) == 2 and model[-1] == max(1, est - push_short):
+            f.push()
+            model.append(0)
+            pushed = True
+            case.op("push", list(model))
+            ctx.count("sweep_pushes_near_a_full_filter")
         key = f"sweep-{est}-{i}"
         i += 1
         present = (not forced) and f.check(key)
@@ -261,14 +272,18 @@ def wl_est_sweep(ctx, rng, case):
         calls += 1
         if not present:
             effective += 1
-        want = max(0, math.ceil(effective / est) - 1)
+            if model[-1] >= est:
+                model.append(0)
+            model[-1] += 1
+        want = len(model) - 1
         ctx.counters["oracle_evaluations"] += 1
         if f.expansions != want:
-            ctx.fail(f"expansions is not max(0, ceil(I/est)-1) after I={effective} effective insertions (est_elements={est}, rate={rate})", got=f.expansions, want=want)
-        if effective in (est, est + 1, 2 * est, 2 * est + 1) and not present:
+            ctx.fail(f"expansions differs from the growth model (max(0, ceil(I/est)-1) without pushes) after I={effective} effective insertions (est_elements={est}, rate={rate})", got=f.expansions, want=want, model=model)
+        if (effective in (est, est + 1, 2 * est, 2 * est + 1, 3 * est, 3 * est + 1) or effective >= target) and not present:
             st, counts, _ = stream_state(f)
             ctx.count("stream_parses")
             ctx.check(all(c <= est for c in counts), f"a sub-filter received more than est_elements insertions (est={est}, rate={rate})", got=counts)
+            ctx.check(counts == model, f"per-filter insertion counts differ from the growth model (est={est})", got=counts, want=model)
             ctx.check(sum(counts) == effective and f.elements_added == calls, "insertion counts inconsistent", counts=counts, effective=effective, calls=calls)
     ctx.count("closed_form_checks", calls)
     ctx.count("est_sweep_cases")
